@@ -819,4 +819,117 @@ example : let vs : List (Int × Int) := [(0,0), (4,0), (4,2), (2,2), (2,4), (0,4
      polyContains (vs.map hv) (hv (-1,2)), decide (∀ e ∈ cycleEdges vs, e.1 ≠ e.2)) = (true, false, true, true, false, true) := by
   decide +kernel
 end polygon
+section invariance
+/-! ## T16.4 the verdict does not depend on where the cycle starts or on its direction -/
+
+theorem zip_snoc {β γ : Type} (l1 : List β) (l2 : List γ) (x : β) (y : γ) (h : l1.length = l2.length) :
+    (l1 ++ [x]).zip (l2 ++ [y]) = l1.zip l2 ++ [(x, y)] := by
+  rw [List.zip_append h]; rfl
+
+/-- starting the cycle one vertex later rotates the edge list -/
+theorem cycleEdges_rotate {β : Type} (v : β) (rest : List β) :
+    cycleEdges (rest ++ [v]) = (cycleEdges (v :: rest)).tail ++ [(cycleEdges (v :: rest)).headD (v, v)] := by
+  cases rest with
+  | nil => rfl
+  | cons w rest' =>
+    simp only [cycleEdges, List.cons_append, List.zip_cons_cons, List.tail_cons, List.headD_cons]
+    rw [show w :: (rest' ++ [v]) = (w :: rest') ++ [v] from rfl, zip_snoc _ _ _ _ (by simp)]
+
+theorem cycleEdges_rotate_perm {β : Type} (v : β) (rest : List β) :
+    (cycleEdges (rest ++ [v])).Perm (cycleEdges (v :: rest)) := by
+  rw [cycleEdges_rotate]
+  cases h : cycleEdges (v :: rest) with
+  | nil => simp [cycleEdges] at h
+  | cons e es =>
+    simp only [List.tail_cons, List.headD_cons]
+    exact List.perm_append_singleton e es
+
+/-- the verdict of the specification only depends on the multiset of edges -/
+theorem inPolygon_of_perm (vs ws : List (F × F)) (p : F × F) (h : (cycleEdges vs).Perm (cycleEdges ws)) :
+    Spec.inPolygon (vs.map lst) (lst p) = Spec.inPolygon (ws.map lst) (lst p) := by
+  rw [inPolygon_unfold, inPolygon_unfold, h.any_eq, (h.filter _).length_eq]
+
+/-- **T16.4 (start of the cycle)** -/
+theorem T16_4_rotate (v : F × F) (rest : List (F × F)) (p : F × F) :
+    Spec.inPolygon ((rest ++ [v]).map lst) (lst p) = Spec.inPolygon ((v :: rest).map lst) (lst p) :=
+  inPolygon_of_perm _ _ p (cycleEdges_rotate_perm v rest)
+
+
+theorem reverse_zip' {β γ : Type} (l1 : List β) (l2 : List γ) (h : l1.length = l2.length) :
+    (l1.zip l2).reverse = l1.reverse.zip l2.reverse := by
+  rw [List.zip_eq_zipWith, List.zip_eq_zipWith, List.reverse_zipWith h]
+
+/-- reversing the cycle reverses every edge (as a multiset of edges) -/
+theorem cycleEdges_reverse_perm {β : Type} (vs : List β) :
+    (cycleEdges vs.reverse).Perm ((cycleEdges vs).map Prod.swap) := by
+  cases vs with
+  | nil => exact List.Perm.refl _
+  | cons v rest =>
+    rw [List.reverse_cons]
+    refine (cycleEdges_rotate_perm v rest.reverse).trans ?_
+    -- zip (v :: R) (R ++ [v])  with R = rest.reverse  is the reverse of  zip (rest ++ [v]) (v :: rest)
+    have e : cycleEdges (v :: rest.reverse) = ((cycleEdges (v :: rest)).map Prod.swap).reverse := by
+      show (v :: rest.reverse).zip (rest.reverse ++ [v]) = (((v :: rest).zip (rest ++ [v])).map Prod.swap).reverse
+      rw [List.zip_swap, reverse_zip' _ _ (by simp)]
+      simp
+    rw [e]
+    exact List.reverse_perm _
+
+/-- the two per-edge tests of the specification do not see the direction of an edge -/
+theorem onSegment_swap (a b p : F × F) : Spec.onSegment (lst b) (lst a) (lst p) = Spec.onSegment (lst a) (lst b) (lst p) := by
+  by_cases hab : a.1 = b.1 ∧ a.2 = b.2
+  · have : a = b := Prod.ext hab.1 hab.2
+    rw [this]
+  · have hba : ¬ (b.1 = a.1 ∧ b.2 = a.2) := fun h => hab ⟨h.1.symm, h.2.symm⟩
+    rw [Bool.eq_iff_iff]
+    show Spec.onSegment [b.1, b.2] [a.1, a.2] [p.1, p.2] = true ↔ Spec.onSegment [a.1, a.2] [b.1, b.2] [p.1, p.2] = true
+    rw [onSegment_iff _ _ _ _ _ _ hba, onSegment_iff _ _ _ _ _ _ hab]
+    have eo : orient2 b.1 b.2 a.1 a.2 p.1 p.2 = -orient2 a.1 a.2 b.1 b.2 p.1 p.2 := by simp only [orient2]; ring
+    have et : (p.1 - b.1) * (a.1 - b.1) + (p.2 - b.2) * (a.2 - b.2)
+        = ((b.1 - a.1) * (b.1 - a.1) + (b.2 - a.2) * (b.2 - a.2)) - ((p.1 - a.1) * (b.1 - a.1) + (p.2 - a.2) * (b.2 - a.2)) := by ring
+    have ed : (a.1 - b.1) * (a.1 - b.1) + (a.2 - b.2) * (a.2 - b.2) = (b.1 - a.1) * (b.1 - a.1) + (b.2 - a.2) * (b.2 - a.2) := by ring
+    rw [eo, et, ed, neg_eq_zero]
+    constructor <;> rintro ⟨h0, h1, h2⟩ <;> refine ⟨h0, ?_, ?_⟩ <;> linarith
+
+theorem specCross_swap (a b p : F × F) : specCross b a p = specCross a b p := by
+  rw [specCross_eq, specCross_eq]
+  have eo : orient2 b.1 b.2 a.1 a.2 p.1 p.2 = -orient2 a.1 a.2 b.1 b.2 p.1 p.2 := by simp only [orient2]; ring
+  rw [eo]
+  by_cases h1 : p.2 < a.2 <;> by_cases h2 : p.2 < b.2 <;> simp only [h1, h2, iff_self, not_true_eq_false, false_and, iff_false, iff_true,
+    not_false_eq_true, true_and, not_not]
+  · have h3 : b.2 < a.2 := by push Not at h2; linarith
+    have h4 : ¬ a.2 < b.2 := by push Not at h2; exact not_lt.mpr (by linarith)
+    simp [h3, h4]
+  · have h3 : ¬ b.2 < a.2 := by push Not at h1; exact not_lt.mpr (by linarith)
+    have h4 : a.2 < b.2 := by push Not at h1; linarith
+    simp [h3, h4]
+
+/-- **T16.4 (direction of the cycle)** -/
+theorem T16_4_reverse (vs : List (F × F)) (p : F × F) :
+    Spec.inPolygon (vs.reverse.map lst) (lst p) = Spec.inPolygon (vs.map lst) (lst p) := by
+  rw [inPolygon_unfold, inPolygon_unfold]
+  have h := cycleEdges_reverse_perm vs
+  rw [h.any_eq, (h.filter _).length_eq, List.any_map, List.filter_map, List.length_map]
+  have f1 : ((fun e : (F × F) × F × F => Spec.onSegment (lst e.1) (lst e.2) (lst p)) ∘ Prod.swap)
+      = fun e => Spec.onSegment (lst e.1) (lst e.2) (lst p) := by
+    funext e; exact onSegment_swap e.1 e.2 p
+  have f2 : ((fun e : (F × F) × F × F => specCross e.1 e.2 p) ∘ Prod.swap) = fun e => specCross e.1 e.2 p := by
+    funext e; exact specCross_swap e.1 e.2 p
+  rw [f1, f2]
+
+/-- … and so does the model of `PolygonTensor.contains` (through T16.3) -/
+theorem T16_4_model_rotate (v : F × F) (rest : List (F × F)) (p : F × F) (hne : ∀ e ∈ cycleEdges (v :: rest), e.1 ≠ e.2) :
+    polyContains ((rest ++ [v]).map homP) (homP p) = polyContains ((v :: rest).map homP) (homP p) := by
+  have hne' : ∀ e ∈ cycleEdges (rest ++ [v]), e.1 ≠ e.2 := fun e he => hne e ((cycleEdges_rotate_perm v rest).mem_iff.mp he)
+  rw [T16_3_polygon_contains _ p hne', T16_3_polygon_contains _ p hne, T16_4_rotate]
+
+theorem T16_4_model_reverse (vs : List (F × F)) (p : F × F) (hne : ∀ e ∈ cycleEdges vs, e.1 ≠ e.2) :
+    polyContains (vs.reverse.map homP) (homP p) = polyContains (vs.map homP) (homP p) := by
+  have hne' : ∀ e ∈ cycleEdges vs.reverse, e.1 ≠ e.2 := by
+    intro e he
+    have := (cycleEdges_reverse_perm vs).mem_iff.mp he
+    obtain ⟨e', he', rfl⟩ := List.mem_map.mp this
+    exact fun h => hne e' he' h.symm
+  rw [T16_3_polygon_contains _ p hne', T16_3_polygon_contains _ p hne, T16_4_reverse]
+end invariance
 end Geo
